@@ -1,4 +1,4 @@
-import SdcModel.Proofs.MdibLinkSC
+import SdcModel.Proofs.MdibLinkD
 import SdcModel.Properties.C01
 /-!
 # C01 link — the provider model satisfies the consumer contract `ReportsDescribe`
@@ -34,6 +34,16 @@ theorem context_delete_not_described :
              { h := 11, dh := 4, dv := 0, sv := 0, body := 0, assoc := .no, bindV := none, unbindV := none, bindT := none, unbindT := none }] },
    ⟨[.del 10, .get 11], false, false⟩, by decide⟩
 
+/-- a committed descriptor transaction (classic and entity interface: create / update / delete in any combination, with
+    the states that follow) is described exactly by its reports - under the kind discipline `KOK`, well-formed entities
+    `DScriptOK`, and `DLinkOK`: the transaction the script collects removes subtrees bottom-up with one `remove_descriptor`
+    per descriptor (clause `flat`, `partsDistinct`), its updates keep parent / source mds (clause `updated`), and
+    `write_entity` deletes no context state (clause `cstateRemoved`) -/
+theorem provider_reports_describe_descriptor_partial (t t' : Mdib.Tables) (r : TxResult) (s : DScript) (q : Nat) (i : Option Nat)
+    (hw : WF t) (hk : KOK t) (hs : DScriptOK t s) (hl : DLinkOK t s) (h : runD t s = (t', r, .committed)) :
+    ReportsDescribe (absCore t q i) (absCore t' q i) (toReports t' ⟨t'.ver, q, i⟩ r) :=
+  describe_of_facts (pfacts_descriptor hw hk s hs hl h) q i
+
 /-! ## examples -/
 
 def lT : Mdib.Tables where
@@ -43,6 +53,11 @@ def lT : Mdib.Tables where
   ctx := [{ h := 10, dh := 4, dv := 1, sv := 2, body := 0, assoc := .assoc, bindV := none, unbindV := none, bindT := none, unbindT := none }]
   cSaved := [(12, 3)]
 
+def lCS : CState :=
+  { h := 10, dh := 4, dv := 0, sv := 0, body := 7, assoc := .assoc, bindV := none, unbindV := none, bindT := none, unbindT := none }
+def lD : DScript :=
+  ⟨[.getDescr 1, .getState 1, .removeDescr 3, .addDescr ⟨6, some 1, .metric, 0, 9, none⟩ (some 2),
+    .writeEntity ⟨4, some 1, .context, 0, 5, some 1⟩ none (some [lCS])], false, false⟩
 def lS : SScript := ⟨.metric, [.get 3, .setBody 3 5], false, false⟩
 def lC : CScript := ⟨[.get 10, .mk 4 11 false true 7 0], false, false⟩
 
@@ -54,11 +69,12 @@ example : reportsDescribe (absCore lT 7 none) (absCore (runS lT lS).1 7 none)
 /-! ## histories: the consumer model fed with the provider model's reports mirrors the provider model -/
 
 /-- side conditions of one script (what the real API can be asked to do, see C02/C04): state scripts write no `context`
-    kind states, context scripts use fresh generated handles and delete no state -/
+    kind states, context scripts use fresh generated handles and delete no state, descriptor scripts see
+    `provider_reports_describe_descriptor_partial` -/
 def LinkOK (t : Mdib.Tables) : Script → Prop
   | .s x => SKindOK t x
   | .c x => FreshUuids t x ∧ NoDel x
-  | .d _ => False
+  | .d x => DScriptOK t x ∧ DLinkOK t x
 
 instance (t : Mdib.Tables) (sc : Script) : Decidable (LinkOK t sc) := by
   cases sc <;> (unfold LinkOK; infer_instance)
@@ -108,7 +124,17 @@ theorem link_step (t : Mdib.Tables) (sc : Script) (q : Nat) (i : Option Nat) (hw
       have key : ∀ o : Outcome, o ≠ .committed → o ≠ .commitFailed → o = .empty ∨ o = .aborted ∨ o = .rejected := by
         intro o; cases o <;> simp
       exact runScript_unchanged t (.c x) (key _ hn hne)
-  | d x => cases h
+  | d x =>
+    obtain ⟨ha, hwf, hkk⟩ := runD_ok hw hk x h.1
+    refine ⟨hwf, hkk, ?_, ?_⟩
+    · intro hc
+      exact provider_reports_describe_descriptor_partial t _ _ x q i hw hk h.1 h.2 (Prod.ext rfl (Prod.ext rfl hc))
+    · intro hn
+      by_cases hf : (runD t x).2.2 = .commitFailed
+      · exact ha hf
+      · have key : ∀ o : Outcome, o ≠ .committed → o ≠ .commitFailed → o = .empty ∨ o = .aborted ∨ o = .rejected := by
+          intro o; cases o <;> simp
+        exact runScript_unchanged t (.d x) (key _ hn hf)
 
 theorem provHist_describes (q : Nat) (i : Option Nat) : ∀ (hist : List Script) (t : Mdib.Tables), WF t → KOK t → HistLinkOK t hist →
     Describes (absCore t q i) (provHist q i t hist) ∧
@@ -140,6 +166,22 @@ theorem provider_consumer_mirror (t : Mdib.Tables) (hist : List Script) (q : Nat
   rw [f] at this
   exact this
 
-example : KOK lT ∧ HistLinkOK lT [.s lS, .c lC, .s lS] := by decide
+example : KOK lT ∧ DScriptOK lT lD ∧ DLinkOK lT lD ∧ (runD lT lD).2.2 = .committed := by decide
+example : reportsDescribe (absCore lT 7 none) (absCore (runD lT lD).1 7 none)
+    (toReports (runD lT lD).1 ⟨(runD lT lD).1.ver, 7, none⟩ (runD lT lD).2.1) = true := by decide
+example : KOK lT ∧ HistLinkOK lT [.s lS, .d lD, .c lC, .s ⟨.component, [.get 1], false, false⟩] := by decide
+
+/-- the restrictions `KeepsParent` and "no context state deleted by `write_entity`" in `DLinkOK` are needed:
+    an entity written with another parent is reported with that parent while the table keeps the old one (clause `updated`),
+    and a context state dropped from a written entity disappears without a DELETE part (clause `cstateRemoved`) -/
+theorem descriptor_link_needs_restrictions :
+    ∃ (t : Mdib.Tables) (s1 s2 : DScript), WF t ∧ KOK t ∧ DScriptOK t s1 ∧ DScriptOK t s2 ∧
+      (runD t s1).2.2 = .committed ∧ (runD t s2).2.2 = .committed ∧
+      reportsDescribe (absCore t 1 none) (absCore (runD t s1).1 1 none)
+        (toReports (runD t s1).1 ⟨(runD t s1).1.ver, 1, none⟩ (runD t s1).2.1) = false ∧
+      reportsDescribe (absCore t 1 none) (absCore (runD t s2).1 1 none)
+        (toReports (runD t s2).1 ⟨(runD t s2).1.ver, 1, none⟩ (runD t s2).2.1) = false :=
+  ⟨lT, ⟨[.writeEntity ⟨3, none, .metric, 0, 5, some 1⟩ none none], false, false⟩,
+   ⟨[.writeEntity ⟨4, some 1, .context, 0, 5, some 1⟩ none (some [])], false, false⟩, by decide⟩
 
 end Sdc.C01
